@@ -126,6 +126,7 @@ def o_twins(ctx, mod, shards):
         t = json.loads(json.dumps(lst[(ctx.seed + n) % len(lst)]))
         t["pyflags"] = (["-O"] if (ctx.seed + n) % 3 else ["-OO"]) + ["-b"]
         t["vendored"] = True
+        t["storm"] = True
         t["label"] = t.get("label", "") + ":" + "".join(t["pyflags"]) + ":vendored"
         out.append(t)
     return out
@@ -363,11 +364,15 @@ def replay(path):
         shard = mod.replay_shard(v)
     else:
         shard = {"interp": v["interp"], "cases": [v["case"]], "label": "replay", "tier": "quick", "seed": 0}
+    if isinstance(v.get("case"), dict) and v["case"].get("k") == "storm":
+        shard["cases"] = []          # observed during the fault storm itself: the storm is the case
+        shard["storm"] = True
     if v.get("pyflags") and not shard.get("pyflags"):
         # the violation was observed in an interpreter-mode twin (python -O / -b, library imported as a vendored copy)
         shard["pyflags"] = [f for f in v["pyflags"] if f.startswith("-")]
         if "vendored-copy" in v["pyflags"]:
             shard["vendored"] = True
+            shard["storm"] = True
     rc = check(prop, "quick", int(os.environ.get("VERIF_SEED", "0")), replay_shard=shard)
     return rc
 
